@@ -4,34 +4,82 @@ From Interval Require Import Tactic.
 From Cheetah Require Import Base.Mat Base.RealAux Optics.Maps Optics.CS Optics.Entries.
 Open Scope R_scope.
 
+(** untilted dipole: rot(0) = I *)
+Lemma rot_0' : rot 0 = rI.
+Proof. unfold rot. rewrite cos_0, sin_0, Ropp_0. reflexivity. Qed.
+Lemma conj_rot_0 M : rmmul (rot (- 0)) (rmmul M (rot 0)) = M.
+Proof.
+  rewrite Ropp_0, rot_0'. unfold rI.
+  rewrite (@mmul_I_r R 0 1 Rplus Rmult Rminus Ropp RRth), (@mmul_I_l R 0 1 Rplus Rmult Rminus Ropp RRth). reflexivity.
+Qed.
+Lemma dip_map_eq_t0 L angle k1 e1 e2 gap fint fint_exit E : L <> 0 ->
+  dip_map L angle k1 e1 e2 0 gap fint fint_exit E =
+    edgeconj (angle / L * tan e2) (- (angle / L) * tan (e2 - edge_phi fint_exit (angle / L) gap e2))
+             (angle / L * tan e1) (- (angle / L) * tan (e1 - edge_phi fint (angle / L) gap e1))
+             (base_untilted L k1 (angle / L) E).
+Proof.
+  intros H. unfold dip_map, dip_body, dip_hx. destruct (Req_EM_T L 0); [contradiction|].
+  rewrite conj_rot_0, edgeconj_eq. reflexivity.
+Qed.
+Lemma dip_map_L0_t0 angle k1 e1 e2 gap fint fint_exit E :
+  dip_map 0 angle k1 e1 e2 0 gap fint fint_exit E =
+    edgeconj (0 * tan e2) (- 0 * tan (e2 - edge_phi fint_exit 0 gap e2))
+             (0 * tan e1) (- 0 * tan (e1 - edge_phi fint 0 gap e1)) (dip_thin 0 angle).
+Proof.
+  unfold dip_map, dip_body, dip_hx. destruct (Req_EM_T 0 0); [|contradiction].
+  rewrite conj_rot_0, edgeconj_eq. reflexivity.
+Qed.
+
+(** guard lemmas at literal points *)
+Lemma m_e_pos' : 0 < m_e. Proof. unfold m_e. lra. Qed.
+Lemma gamma_nz E : E <> 0 -> gamma_of E <> 0.
+Proof.
+  intros H e. apply H. pose proof m_e_pos'. unfold gamma_of in e.
+  replace E with (E / m_e * m_e) by (field; lra). rewrite e. ring.
+Qed.
+Lemma igamma2_nz' E : E <> 0 -> igamma2_of E = 1 / (E / m_e * (E / m_e)).
+Proof. intros H. unfold igamma2_of. destruct (Req_EM_T (gamma_of E) 0) as [e|n]; [exfalso; exact (gamma_nz E H e)|reflexivity]. Qed.
+Lemma und_igamma2_nz E : E <> 0 -> und_igamma2 E = 1 / (E / m_e * (E / m_e)).
+Proof. intros H. unfold und_igamma2. destruct (Req_EM_T (gamma_of E) 0) as [e|n]; [exfalso; exact (gamma_nz E H e)|reflexivity]. Qed.
+Lemma sol_r56_nz L E : E <> 0 -> sol_r56 L E = L / (1 - E / m_e * (E / m_e)).
+Proof. intros H. unfold sol_r56. destruct (Req_EM_T (gamma_of E) 0) as [e|n]; [exfalso; exact (gamma_nz E H e)|reflexivity]. Qed.
+Lemma sol_sk_0 L : sol_sk L 0 = L.
+Proof. unfold sol_sk. destruct (Req_EM_T 0 0); [reflexivity|contradiction]. Qed.
+Lemma sol_sk_nz L k : k <> 0 -> sol_sk L k = sin (L * k) / k.
+Proof. intros H. unfold sol_sk. destruct (Req_EM_T k 0); [contradiction|reflexivity]. Qed.
+
 (** reduction of [m7nth (composite) i j] to an arithmetic expression in the scalar atoms *)
 Ltac c02_reduce :=
   cbv [m7nth v7nth rotconj rot_l rot_r shiftconj shift_l shift_r edgeconj edge_l edge_r vlin v7map v7map2
        base_untilted drift_map hcor_map vcor_map und_map sol_body dip_thin identity_map rI I7 e0 e1 e2 e3 e4 e5 e6
        row c0 c1 c2 c3 c4 c5 c6].
+
 Ltac c02_atoms :=
   unfold r56, dx, drift_r56, sol_r56, sol_sk, edge_phi;
   unfold cx, sx, cy, sy, beta_of, und_igamma2;
   unfold Cf, Sf, kx2, ky2, igamma2_of;
   unfold k1_guard.
 
-(* decide the guards [Req_EM_T lit 0] and the sign tests [Rlt_dec 0 k] at a literal parameter point *)
-Ltac c02_false := solve [ contradiction | lra | unfold gamma_of, m_e in *; lra ].
+(* decide the guards [Req_EM_T lit 0] and the sign tests [Rlt_dec 0 k] at a literal parameter point;
+   the decision is proved first (small goal), then the [if] is eliminated without [exfalso] on the big goal *)
+Ltac c02_lit := solve [ lra | unfold gamma_of, m_e; lra | apply gamma_nz; lra ].
+Ltac c02_sgn := unfold Rsqr; first [ lra | interval with (i_prec 80) ].
 Ltac c02_guards :=
   repeat match goal with
   | |- context [Req_EM_T ?a ?b] =>
-      let H := fresh "Hg" in destruct (Req_EM_T a b) as [H|H]; [ try (exfalso; c02_false) | try (exfalso; c02_false) ]
+      let H := fresh "Hg" in let n := fresh "n" in
+      first [ assert (H : a = b) by c02_lit; destruct (Req_EM_T a b) as [_|n]; [ | case (n H) ]
+            | assert (H : a <> b) by c02_lit; destruct (Req_EM_T a b) as [n|_]; [ case (H n) | ] ]
   end.
 Ltac c02_signs :=
   repeat match goal with
   | |- context [Rlt_dec ?a ?b] =>
-      let H := fresh "Hs" in
-      destruct (Rlt_dec a b) as [H|H];
-      [ try (exfalso; revert H; apply Rle_not_lt; unfold Rsqr; interval with (i_prec 80))
-      | try (exfalso; apply H; unfold Rsqr; interval with (i_prec 80)) ]
+      let H := fresh "Hs" in let n := fresh "n" in
+      first [ assert (H : a < b) by c02_sgn; destruct (Rlt_dec a b) as [_|n]; [ | case (n H) ]
+            | assert (H : b <= a) by c02_sgn; destruct (Rlt_dec a b) as [n|_]; [ case (Rle_not_lt _ _ H n) | ] ]
   end.
 Ltac c02_eval := c02_reduce; c02_atoms; c02_guards; c02_signs; unfold gamma_of, m_e, cosh, sinh, Rsqr.
-(* numeric entry: |model - observed| <= tol *)
-Ltac c02_num := c02_eval; interval with (i_prec 90).
+(* numeric entries: a conjunction of |model - observed| <= tol at one parameter point *)
+Ltac c02_num := c02_eval; repeat split; interval with (i_prec 90).
 (* structural entries: exact 0 / 1 *)
-Ltac c02_exact := c02_reduce; repeat split; unfold Rdiv; ring.
+Ltac c02_exact := c02_reduce; repeat split; unfold dx, Rdiv; ring.
